@@ -1,4 +1,63 @@
 import RP.Driver.Common
--- line-protocol driver for property C06 (stub)
-def handle (_line : String) : String := "unimplemented"
+import RP.Model.Hands
+/-! line-protocol driver for C06
+* `hands <std|short> <k> <mask> list`   → `n=<count> [<h1> <h2> …]`
+* `hands <std|short> <k> <mask> sum`    → `n=<count> ck=<order checksum>`
+* `obs <std|short> <street 0..3>`       → `n=<count> ck=<order checksum>`
+* `children <std|short> <pocket> <public>` → `n=<count> ck=<order checksum>` or `panic`
+* `niso <std|short> <street 0..3>`      → the generated `n_isomorphisms` entry (proved equal to the
+  Burnside value in `RP.C06.C06_burnside_arith`)
+* `nobs <std|short> <street>` / `nchildren <std|short> <street>` → generated table entries -/
+open RP.Driver RP.Hands
+
+def deckOf (s : String) : Option Bool :=
+  if s == "std" then some false else if s == "short" then some true else none
+
+def num? (s : String) : Option Nat := if s.isEmpty then none else s.toNat?
+
+def fmtSum (p : Nat × Nat) : String := s!"n={p.1} ck={p.2}"
+
+def table (short : Bool) (std sh : List Nat) (street : Nat) : String :=
+  match (if short then sh else std)[street]? with
+  | some v => s!"{v}"
+  | none => "bad-op"
+
+def handle (line : String) : String :=
+  match words line with
+  | ["hands", d, k, m, mode] =>
+    match deckOf d, num? k, num? m with
+    | some short, some k, some m =>
+      if k ≥ 64 ∨ m ≥ 2^64 then "bad-op"
+      else if mode == "list" then
+        let l := hands short k m
+        s!"n={l.length} [{joinSp (l.map toString)}]"
+      else if mode == "sum" then fmtSum (handsSummary short k m)
+      else "bad-op"
+    | _, _, _ => "bad-op"
+  | ["obs", d, st] =>
+    match deckOf d, num? st with
+    | some short, some st => if st > 3 then "bad-op" else fmtSum (observationsSummary short st)
+    | _, _ => "bad-op"
+  | ["children", d, p, b] =>
+    match deckOf d, num? p, num? b with
+    | some short, some p, some b =>
+      if p ≥ 2^64 ∨ b ≥ 2^64 then "bad-op" else
+      match children short p b with
+      | none => "panic"
+      | some l => fmtSum (l.foldl ckObs (0, 0))
+    | _, _, _ => "bad-op"
+  | ["niso", d, st] =>
+    match deckOf d, num? st with
+    | some short, some st => table short RP.Gen.n_isomorphisms_Std RP.Gen.n_isomorphisms_Short st
+    | _, _ => "bad-op"
+  | ["nobs", d, st] =>
+    match deckOf d, num? st with
+    | some short, some st => table short RP.Gen.n_observations_Std RP.Gen.n_observations_Short st
+    | _, _ => "bad-op"
+  | ["nchildren", d, st] =>
+    match deckOf d, num? st with
+    | some short, some st => if st ≥ 3 then "panic" else table short RP.Gen.n_children_Std RP.Gen.n_children_Short st
+    | _, _ => "bad-op"
+  | _ => "bad-op"
+
 def main : IO Unit := RP.Driver.run handle
